@@ -1954,6 +1954,30 @@ def _sorted(I: Interp, args: list[V], kwargs: dict[str, V]) -> V:
         order = sorted(range(len(items)), key=lambda i: pys[i],
                        reverse=bool(_concrete_py(kwargs.get("reverse", VBool(False)))))
         return VList([items[i] for i in order])
+    if len(items) <= 4 and not _concrete_py(kwargs.get("reverse", VBool(False))):
+        # a short concrete-spine list of symbolic ints / tuples of ints: insertion sort with one
+        # fork per comparison (stable, as sorted() is)
+        keyf = kwargs.get("key")
+        keys = [I.call_v(keyf, [x], {}) if keyf is not None else x for x in items]
+
+        def less(a: V, b: V) -> bool:
+            if isinstance(a, VTuple) and isinstance(b, VTuple):
+                for x, y in zip(a.items, b.items):
+                    if less(x, y):
+                        return True
+                    if less(y, x):
+                        return False
+                return len(a.items) < len(b.items)
+            if is_intlike(a) and is_intlike(b):
+                return I.branch(as_int(I, a) < as_int(I, b))
+            raise Unsupported("sorted on symbolic elements")
+        order2: list[int] = []
+        for i in range(len(items)):
+            pos = len(order2)
+            while pos > 0 and less(keys[i], keys[order2[pos - 1]]):
+                pos -= 1
+            order2.insert(pos, i)
+        return VList([items[i] for i in order2])
     raise Unsupported("sorted on symbolic elements")
 
 
